@@ -18,6 +18,7 @@ import (
 
 type Loaded struct {
 	missing []*Contract // contracts naming functions that do not exist in the current tree
+	renamed []string    // unexported functions bound to the contract of a function that no longer exists (renames)
 	prog    *ssa.Program
 	pkgs    []*packages.Package
 	fnByKey map[string][]*ssa.Function
@@ -79,6 +80,63 @@ func loadRepo(repo string, stdlibContracts string) (*Loaded, error) {
 					return nil, err
 				}
 			}
+		}
+	}
+	// a contract whose (unexported) function is gone while exactly one unexported function of the same
+	// receiver/package with the same number of parameters and results has no contract: the function
+	// was renamed - the contract is checked against it under the old name
+	renamedFns = map[string]string{}
+	owner := func(k string) (string, string) {
+		if i := strings.LastIndex(k, ")."); i >= 0 {
+			return k[:i+2], k[i+2:]
+		}
+		if i := strings.LastIndex(k, "."); i >= 0 {
+			return k[:i+1], k[i+1:]
+		}
+		return "", k
+	}
+	unexported := func(n string) bool { return n != "" && n[0] >= 'a' && n[0] <= 'z' && !strings.Contains(n, "$") }
+	for _, k := range ld.cs.Order {
+		c := ld.cs.Funcs[k]
+		if c.Iface || c.Assumed || strings.HasPrefix(k, "functype:") || strings.HasPrefix(k, "dyn:") || len(ld.fnByKey[k]) != 0 {
+			continue
+		}
+		ow, name := owner(k)
+		if !unexported(name) {
+			continue
+		}
+		var cands []string
+		for k2, fs := range ld.fnByKey {
+			ow2, name2 := owner(k2)
+			if ow2 != ow || !unexported(name2) || ld.cs.Funcs[k2] != nil || len(fs) == 0 || fs[0].Synthetic != "" || fs[0].Parent() != nil || fs[0].Blocks == nil {
+				continue
+			}
+			np := fs[0].Signature.Params().Len()
+			if fs[0].Signature.Recv() != nil {
+				np++
+			}
+			if (len(c.ParamNames) > 0 && len(c.ParamNames) != np) || (len(c.ResultNames) > 0 && len(c.ResultNames) != fs[0].Signature.Results().Len()) {
+				continue
+			}
+			cands = append(cands, k2)
+		}
+		if len(cands) == 1 {
+			renamedFns[cands[0]] = k
+			ld.renamed = append(ld.renamed, cands[0]+" is checked against the contract of "+k)
+		}
+	}
+	if len(renamedFns) > 0 {
+		ld.fnByKey = map[string][]*ssa.Function{}
+		for fn := range ssautil.AllFunctions(prog) {
+			if fn.TypeParams().Len() > 0 && len(fn.TypeArgs()) == 0 {
+				continue
+			}
+			k := fnKey(fn)
+			ld.fnByKey[k] = append(ld.fnByKey[k], fn)
+		}
+		for k := range ld.fnByKey {
+			fs := ld.fnByKey[k]
+			sort.Slice(fs, func(i, j int) bool { return fs[i].String() < fs[j].String() })
 		}
 	}
 	// every contract must name something that exists
